@@ -23,12 +23,28 @@
  *   stream2     one frame with a two-octet varint prefix, every fragmentation
  *               with at most two cuts
  *   stream-oct  the same streams through an octet source
+ *   enc-sinkbeh the four sink encoders into sinks that answer within the driver
+ *               contract but not "everything at once": octet sinks answering 0 /
+ *               EINTR / EAGAIN before they take the octet, chunk sinks taking 1 /
+ *               asked-1 octets or answering 0 / EINTR / EAGAIN; every placement
+ *               of <= D such answers over the first W sink calls
+ *   enc-refuse-n the two _n entry points asked for more than any kind can
+ *               frame *and* more than the buffer holds (n up to SIZE_MAX, every
+ *               buffer state incl. offset > 0): refused, nothing emitted, the
+ *               buffer is not moved backwards; then a second slice off the
+ *               same buffer
+ *   enc-max ... first-sink-answer  the maxima with a sink that takes 2^31 /
+ *               2^32-11 / 2^32-4 / 2^32-5 / 2^32 octets in its first call
+ *   dec-huge    frames of 2^32-1 .. 2^33 octets into an untouched 8 GiB mapping
+ *               from a source that delivers one of those counts in its first
+ *               read (octets identified by address)
  *
  * Case numbering never depends on the implementation's behaviour.
  */
 #include "mc.h"
 
 #include <limits.h>
+#include <sys/mman.h>
 
 #include <ufw/byte-buffer.h>
 #include <ufw/compat/errno.h>
@@ -231,10 +247,80 @@ cap_init(struct rec *r, size_t cap)
     r->calls = 0;
 }
 
+/* scripted sink: answers the first calls from a script, then takes everything
+ * it is given; keeps what it accepted.  Every answer is one the driver
+ * contract of endpoints/core.c allows (a count <= asked, 0, -EINTR, -EAGAIN). */
+enum sb { SB_ALL, SB_ONE, SB_KM1, SB_ZERO, SB_EINTR, SB_EAGAIN, SB__N };
+static const char *const sbname[] = { "r", "1", "k", "0", "EINTR", "EAGAIN" };
+struct bsink {
+    struct rec r;
+    const uint8_t *script;
+    int slen, pos;
+    long budget;
+    bool over;
+    int zeros, intrs, partials;
+};
+
+static bool
+bs_scripted(struct bsink *b, ssize_t *ans, int *tok)
+{
+    if (++b->r.calls > b->budget) {
+        b->over = true;
+        *ans = -EIO;
+        return true;
+    }
+    *tok = b->pos < b->slen ? b->script[b->pos++] : SB_ALL;
+    switch (*tok) {
+    case SB_ZERO: b->zeros++; *ans = 0; return true;
+    case SB_EINTR: b->intrs++; *ans = -EINTR; return true;
+    case SB_EAGAIN: b->intrs++; *ans = -EAGAIN; return true;
+    default: return false;
+    }
+}
+
+static ssize_t
+bs_chunk(void *drv, const void *data, size_t n)
+{
+    struct bsink *b = drv;
+    ssize_t ans;
+    int tok;
+    if (bs_scripted(b, &ans, &tok))
+        return ans;
+    size_t m = tok == SB_ONE ? 1u : tok == SB_KM1 ? (n > 1 ? n - 1u : n) : n;
+    if (m > n)
+        m = n;
+    if (m < n)
+        b->partials++;
+    struct rec *r = &b->r;
+    const size_t room = r->cap - r->n;
+    const size_t st = m < room ? m : room;
+    memcpy(r->buf + r->n, data, st);
+    r->n += st;
+    r->overflow += m - st;
+    return (ssize_t)m;
+}
+
+static int
+bs_octet(void *drv, unsigned char c)
+{
+    struct bsink *b = drv;
+    ssize_t ans;
+    int tok;
+    if (bs_scripted(b, &ans, &tok))
+        return (int)ans;
+    struct rec *r = &b->r;
+    if (r->n < r->cap)
+        r->buf[r->n++] = c;
+    else
+        r->overflow++;
+    return 1;
+}
+
 /* segment sink for the maxima: payload pointers are recognised by the real
  * block they point into and only the octets that really exist are read */
 #define SEG_BLOCKS 4
 #define SEG_MAX 8
+#define SEG_BUDGET 256
 struct seg {
     const unsigned char *base[SEG_BLOCKS];
     size_t real[SEG_BLOCKS];
@@ -246,6 +332,12 @@ struct seg {
     struct { int blk; size_t off, len; } s[SEG_MAX];
     int ns;
     long calls;
+    uint64_t first_answer; /* != 0: the first payload call takes only so many octets */
+    bool first_done;
+    const unsigned char *cont; /* where the octets behind the last accepted range start */
+    int cont_blk;
+    size_t cont_off;
+    bool gave_up;
 };
 
 static ssize_t
@@ -253,34 +345,58 @@ seg_chunk(void *drv, const void *data, size_t n)
 {
     struct seg *g = drv;
     const unsigned char *p = data;
-    g->calls++;
-    for (int b = 0; b < g->nblk; ++b) {
-        if (p >= g->base[b] && p < g->base[b] + g->real[b]) {
-            const size_t off = (size_t)(p - g->base[b]);
-            const size_t rd = n < g->real[b] - off ? n : g->real[b] - off;
-            for (size_t i = 0; i < rd; ++i)
-                if (p[i] != pat(g->patbase[b] + off + i))
-                    g->bad_content = true;
-            if (g->ns && g->s[g->ns - 1].blk == b
-                && g->s[g->ns - 1].off + g->s[g->ns - 1].len == off) {
-                g->s[g->ns - 1].len += n;
-            } else if (g->ns < SEG_MAX) {
-                g->s[g->ns].blk = b;
-                g->s[g->ns].off = off;
-                g->s[g->ns].len = n;
-                g->ns++;
-            } else {
-                g->too_many = true;
-            }
-            return (ssize_t)n;
-        }
+    if (++g->calls > SEG_BUDGET) {
+        /* either a loop that does not end or an implementation that hands its
+         * sink little at a time; judge_seg() tells them apart by what arrived */
+        g->gave_up = true;
+        return -EIO;
     }
-    /* not payload memory: prefix storage of the library */
-    if (g->ns == 0 && g->npfx + n <= sizeof g->pfx) {
-        memcpy(g->pfx + g->npfx, p, n);
-        g->npfx += n;
+    int blk = -1;
+    size_t off = 0;
+    if (g->cont != NULL && p == g->cont) {
+        /* the octets behind a partial answer: beyond what really exists of the block */
+        blk = g->cont_blk;
+        off = g->cont_off;
     } else {
-        g->bad_pfx = true;
+        for (int b = 0; b < g->nblk && blk < 0; ++b)
+            if (p >= g->base[b] && p < g->base[b] + g->real[b]) {
+                blk = b;
+                off = (size_t)(p - g->base[b]);
+            }
+    }
+    if (blk < 0) {
+        /* not payload memory: prefix storage of the library */
+        if (g->ns == 0 && g->npfx + n <= sizeof g->pfx) {
+            memcpy(g->pfx + g->npfx, p, n);
+            g->npfx += n;
+        } else {
+            g->bad_pfx = true;
+        }
+        return (ssize_t)n;
+    }
+    if (g->first_answer && !g->first_done) {
+        g->first_done = true;
+        if (g->first_answer < n)
+            n = (size_t)g->first_answer;
+    }
+    g->cont = p + n;
+    g->cont_blk = blk;
+    g->cont_off = off + n;
+    if (off < g->real[blk]) {
+        const size_t rd = n < g->real[blk] - off ? n : g->real[blk] - off;
+        for (size_t i = 0; i < rd; ++i)
+            if (p[i] != pat(g->patbase[blk] + off + i))
+                g->bad_content = true;
+    }
+    if (g->ns && g->s[g->ns - 1].blk == blk && g->s[g->ns - 1].off + g->s[g->ns - 1].len == off) {
+        g->s[g->ns - 1].len += n;
+    } else if (g->ns < SEG_MAX) {
+        g->s[g->ns].blk = blk;
+        g->s[g->ns].off = off;
+        g->s[g->ns].len = n;
+        g->ns++;
+    } else {
+        g->too_many = true;
     }
     return (ssize_t)n;
 }
@@ -294,7 +410,20 @@ struct src {
     const unsigned char *cut; /* cut[i] != 0: fragment boundary after octet i; NULL = none */
     long calls, budget;
     bool over_budget;
+    unsigned char *scratch; /* != NULL: the source offers this block (getbuffer extension) */
+    size_t scratch_size;
 };
+
+static ByteBuffer
+src_getbuffer(Source *source)
+{
+    const struct src *s = source->driver;
+    ByteBuffer b;
+    b.data = s->scratch;
+    b.size = b.used = s->scratch_size;
+    b.offset = 0;
+    return b;
+}
 
 static void
 src_init(struct src *s, const unsigned char *stream, size_t len, const unsigned char *cut)
@@ -306,6 +435,8 @@ src_init(struct src *s, const unsigned char *stream, size_t len, const unsigned 
     s->calls = 0;
     s->budget = 8 * (long)len + 256;
     s->over_budget = false;
+    s->scratch = NULL;
+    s->scratch_size = 0;
 }
 
 static ssize_t
@@ -466,6 +597,25 @@ check_advance(const char *ep, const ByteBuffer *b, const unsigned char *mem,
                 b->used, b->offset, used, off + n, n);
 }
 
+/* A refused request of an _n entry point: whether the buffer is advanced
+ * anyway is not said (the code does, by n, when n octets are there), but the
+ * buffer can only ever be *advanced*, and only over octets it holds: the read
+ * position must not move backwards (octets framed before would be designated
+ * again by the next slice) or beyond the fill mark.  Returns true if so. */
+static bool
+check_position(const char *ep, const ByteBuffer *b, const unsigned char *mem,
+               size_t size, size_t used, size_t off, uint64_t n)
+{
+    mc_log("buffer after the refused request: used=%zu offset=%zu", b->used, b->offset);
+    if (b->data == mem && b->size == size && b->used == used && b->offset >= off && b->offset <= used)
+        return true;
+    mc_fail(clause(ep, "position"), "refused request (n=%llu) on a buffer with used=%zu offset=%zu left it with used=%zu offset=%zu: the read position %s",
+            (unsigned long long)n, used, off, b->used, b->offset,
+            b->offset < off ? "moved backwards, octets already framed are unread again"
+                            : "is not inside the buffer's content any more");
+    return false;
+}
+
 /* one call of a memory or buffer entry point on real memory */
 static void
 run_flat(int k, enum ep ep, int sk, size_t size, size_t used, size_t off, size_t n)
@@ -510,6 +660,8 @@ run_flat(int k, enum ep ep, int sk, size_t size, size_t used, size_t off, size_t
     }
     if (acc && isn)
         check_advance(name, &b, mem, size, used, off, n);
+    else if (isn && !mc.cur_failed)
+        check_position(name, &b, mem, size, used, off, n);
     free(mem);
 }
 
@@ -545,6 +697,228 @@ enc_small(size_t S)
                         }
                 }
     }
+}
+
+/* ---- the _n entry points asked for more than there is ------------------- */
+
+/* n is beyond the kind's maximum (so the request has to be refused before
+ * anything is emitted) and beyond the buffer's unread content (so there are no
+ * "first n unread octets" that could be skipped).  Then a second slice is taken
+ * off the same buffer: it has to carry the first unread octets, as always. */
+static void
+run_refuse_n(int k, enum ep ep, size_t size, size_t used, size_t off, uint64_t n)
+{
+    unsigned char *mem = mc_exact(size);
+    for (size_t i = 0; i < size; ++i)
+        mem[i] = pat(i);
+    ByteBuffer b = { mem, size, used, off };
+    const char *name = epname[ep];
+    const bool sinky = (ep == EP_BUF_SINK_N);
+    for (int round = 0; round < 2; ++round) {
+        /* round 0: the refused request; round 1: everything that is unread now */
+        const size_t o = b.offset;
+        const uint64_t want = round ? used - o : n;
+        mc_trans(1);
+        bool acc;
+        if (!sinky) {
+            LengthPrefixBuffer *lpb = mc_exact(sizeof *lpb);
+            memset(lpb, 0, sizeof *lpb);
+            const int rc = flenp_buffer_encode_n(klib[k], lpb, &b, (size_t)want);
+            acc = judge_obj(name, k, want, mem + o, lpb->prefix_, &lpb->prefix, &lpb->payload, rc);
+            free(lpb);
+        } else {
+            struct rec r;
+            rec_init(&r, round ? (size_t)want + 10u : 16u);
+            Sink s;
+            rec_sink(&s, &r, 0);
+            const ssize_t rc = flenp_buffer_to_sink_n(klib[k], &s, &b, (size_t)want);
+            acc = judge_sink(name, k, want, mem + o, &r, rc);
+            free(r.buf);
+        }
+        if (mc.cur_failed)
+            break;
+        if (round == 0) {
+            if (acc || !check_position(name, &b, mem, size, used, off, n))
+                break;
+            if (b.offset == used)
+                break; /* nothing left for a second slice */
+        } else if (acc) {
+            check_advance(name, &b, mem, size, used, o, (size_t)want);
+        }
+    }
+    free(mem);
+}
+
+static size_t
+refuse_family(uint64_t *out, size_t size)
+{
+    size_t c = 0;
+    out[c++] = 256u;
+    out[c++] = 65536u;
+    out[c++] = 1ull << 31;
+    for (uint64_t v = (1ull << 32) - size - 1u; v <= (1ull << 32) + 1u; ++v)
+        out[c++] = v;
+    for (uint64_t v = SSZ_MAX - size - 1u; v <= SSZ_MAX + 2u; ++v)
+        out[c++] = v;
+    for (uint64_t d = size + 1u;; --d) {
+        out[c++] = UINT64_MAX - d;
+        if (d == 0)
+            break;
+    }
+    return c;
+}
+
+static void
+enc_refuse_n(size_t S)
+{
+    uint64_t ns[64];
+    for (int k = 0; k < NKINDS; ++k)
+        for (size_t size = 1; size <= S; ++size) {
+            const size_t nn = refuse_family(ns, size);
+            for (size_t used = 0; used <= size; ++used)
+                for (size_t off = 0; off <= used; ++off)
+                    for (int v = 0; v < 2; ++v) {
+                        const enum ep ep = v ? EP_BUF_SINK_N : EP_BUF_ENC_N;
+                        for (size_t i = 0; i < nn; ++i) {
+                            if (ns[i] <= used - off || ref_verdict(k, ns[i], v != 0) != V_REFUSE)
+                                continue; /* not certainly refused: not in this family */
+                            if (!mc_case("enc-refuse-n k=%s ep=%s size=%zu used=%zu off=%zu n=%llu then-the-rest", kname[k],
+                                         epname[ep], size, used, off, (unsigned long long)ns[i]))
+                                continue;
+                            run_refuse_n(k, ep, size, used, off, ns[i]);
+                            mc_end(true, off > 0 ? (used > off ? "refuse-n-then-slice" : "refuse-n-offset") : "refuse-n");
+                        }
+                    }
+        }
+}
+
+/* ---- sink encoders into sinks that do not take everything at once -------- */
+static const char *
+run_sinkbeh(int k, enum ep ep, int sk, size_t len, const uint8_t *script, int slen)
+{
+    /* layouts: buffer with one consumed octet in front (and two unread octets
+     * behind the slice for _n); chunk list = inactive chunk, first half behind a
+     * consumed octet, empty chunk, second half */
+    const size_t h2 = len / 2, h1 = len - h2;
+    unsigned char *mem = mc_exact(len + 4u);
+    for (size_t i = 0; i < len + 4u; ++i)
+        mem[i] = pat(i);
+    unsigned char *c0 = mc_exact(2), *c2 = mc_exact(2), *c3 = mc_exact(h2 ? h2 : 1);
+    c0[0] = c0[1] = 0xcf;
+    c2[0] = c2[1] = 0xce;
+    for (size_t i = 0; i < h2; ++i)
+        c3[i] = pat(1u + h1 + i);
+    struct bsink bs;
+    memset(&bs, 0, sizeof bs);
+    rec_init(&bs.r, len + 10u);
+    bs.script = script;
+    bs.slen = slen;
+    bs.budget = 4 * (long)(len + 10u) + 4 * slen + 16;
+    Sink s;
+    if (sk)
+        octet_sink_init(&s, bs_octet, &bs);
+    else
+        chunk_sink_init(&s, bs_chunk, &bs);
+    const char *name = epname[ep];
+    const unsigned char *pay = mem + 1;
+    unsigned char *joined = NULL;
+    ssize_t rc;
+    mc_trans(1);
+    if (ep == EP_MEM_SINK) {
+        rc = flenp_memory_to_sink(klib[k], &s, mem + 1, len);
+    } else if (ep == EP_BUF_SINK) {
+        ByteBuffer b = { mem, len + 2u, len + 1u, 1 };
+        rc = flenp_buffer_to_sink(klib[k], &s, &b);
+    } else if (ep == EP_BUF_SINK_N) {
+        ByteBuffer b = { mem, len + 4u, len + 3u, 1 };
+        rc = flenp_buffer_to_sink_n(klib[k], &s, &b, len);
+        if (rc >= 0 && !bs.over)
+            check_advance(name, &b, mem, len + 4u, len + 3u, 1, len);
+    } else {
+        ByteBuffer arr[4] = { { c0, 2, 2, 1 }, { mem, 1u + h1, 1u + h1, 1 }, { c2, 2, 1, 1 }, { c3, h2 ? h2 : 1, h2, 0 } };
+        ByteChunks bc = { h2 ? 4u : 3u, 1, arr };
+        joined = mc_exact(len);
+        memcpy(joined, mem + 1, h1);
+        memcpy(joined + h1, c3, h2);
+        pay = joined;
+        rc = flenp_chunks_to_sink(klib[k], &s, &bc);
+    }
+    mc_log("sink: %ld calls, answered 0 %d times, EINTR/EAGAIN %d times, took part of a request %d times", bs.r.calls,
+           bs.zeros, bs.intrs, bs.partials);
+    if (bs.over)
+        mc_fail("C13/hang", "%s: sink call budget of %ld exceeded", name, bs.budget);
+    else if (!mc.cur_failed)
+        judge_sink(name, k, len, pay, &bs.r, rc);
+    const int kinds = (bs.zeros > 0) + (bs.intrs > 0) + (bs.partials > 0);
+    const char *outcome = kinds > 1 ? "encbeh-mixed" : bs.zeros ? "encbeh-zero-return" : bs.intrs ? "encbeh-interruption"
+        : bs.partials ? "encbeh-partial" : "encbeh-all-at-once";
+    free(bs.r.buf);
+    free(joined);
+    free(mem);
+    free(c0);
+    free(c2);
+    free(c3);
+    return outcome;
+}
+
+struct sben {
+    int k, sk, slots;
+    enum ep ep;
+    size_t len;
+    uint8_t script[8];
+    int d;
+};
+
+static void
+sben_rec(struct sben *e, int start, int remaining)
+{
+    if (remaining == 0) {
+        if (!mc_would_run()) {
+            mc_skip_case();
+            return;
+        }
+        char sd[64];
+        size_t l = 0;
+        sd[0] = 0;
+        for (int i = 0; i < e->slots; ++i)
+            l += (size_t)snprintf(sd + l, sizeof sd - l, "%s%s", i ? " " : "", sbname[e->script[i]]);
+        if (!mc_case("enc-sinkbeh dev=%d k=%s ep=%s sink=%s len=%zu answers=[%s]", e->d, kname[e->k], epname[e->ep],
+                     skname[e->sk], e->len, sd))
+            return;
+        const char *outcome = run_sinkbeh(e->k, e->ep, e->sk, e->len, e->script, e->slots);
+        mc_end(strcmp(outcome, "encbeh-all-at-once") != 0, outcome);
+        return;
+    }
+    for (int pos = start; pos + remaining <= e->slots; ++pos) {
+        for (int t = SB_ALL + 1; t < SB__N; ++t) {
+            if (e->sk && (t == SB_ONE || t == SB_KM1))
+                continue; /* an octet sink is given one octet per call */
+            e->script[pos] = (uint8_t)t;
+            sben_rec(e, pos + 1, remaining - 1);
+        }
+        e->script[pos] = SB_ALL;
+    }
+}
+
+static void
+enc_sinkbeh(size_t maxlen, int slots_chunk, int slots_octet, int dmax)
+{
+    static const enum ep eps[4] = { EP_MEM_SINK, EP_BUF_SINK, EP_BUF_SINK_N, EP_CHUNKS_SINK };
+    for (int d = 0; d <= dmax; ++d)
+        for (int k = 0; k < NKINDS; ++k)
+            for (int e = 0; e < 4; ++e)
+                for (int sk = 0; sk < 2; ++sk)
+                    for (size_t len = 1; len <= maxlen; ++len) {
+                        struct sben en;
+                        memset(&en, 0, sizeof en);
+                        en.k = k;
+                        en.sk = sk;
+                        en.ep = eps[e];
+                        en.len = len;
+                        en.slots = sk ? slots_octet : slots_chunk;
+                        en.d = d;
+                        sben_rec(&en, 0, d);
+                    }
 }
 
 /* ---- chunk lists --------------------------------------------------------- */
@@ -777,6 +1151,21 @@ judge_seg(const char *ep, int k, uint64_t n, const struct xseg *xs, int nxs,
             mc_fail(clause(ep, "refuses-overmax"), "refused (rc=%zd) after %ld sink calls", rc, g->calls);
         return;
     }
+    if (g->gave_up && !g->bad_pfx && g->npfx == pl && memcmp(g->pfx, pfx, pl) == 0 && !g->bad_content && !g->too_many
+        && g->ns >= 1 && g->ns <= nxs) {
+        /* the sink stopped serving after SEG_BUDGET calls: if everything that
+         * arrived until then is the designated payload, in order, as far as it
+         * got, the implementation just moves little per call and the case
+         * cannot be followed to its end */
+        bool sofar = true;
+        for (int i = 0; sofar && i < g->ns; ++i)
+            sofar = g->s[i].blk == xs[i].blk && g->s[i].off == xs[i].off
+                && (i + 1 < g->ns ? g->s[i].len == xs[i].len : g->s[i].len <= xs[i].len);
+        if (sofar) {
+            mc_log("not judged: %ld sink calls moved a prefix of the payload only", g->calls);
+            return;
+        }
+    }
     if (rc < 0) {
         mc_fail(clause(ep, "accepts"), "length %llu (%s) refused rc=%zd after %ld sink calls",
                 (unsigned long long)n, kname[k], rc, g->calls);
@@ -787,7 +1176,7 @@ judge_seg(const char *ep, int k, uint64_t n, const struct xseg *xs, int nxs,
                 g->npfx, kname[k], (unsigned long long)n);
         return;
     }
-    bool same = !g->bad_content && !g->too_many && g->ns == nxs;
+    bool same = !g->gave_up && !g->bad_content && !g->too_many && g->ns == nxs;
     for (int i = 0; same && i < nxs; ++i)
         same = g->s[i].blk == xs[i].blk && g->s[i].off == xs[i].off && g->s[i].len == xs[i].len;
     if (!same) {
@@ -802,12 +1191,13 @@ judge_seg(const char *ep, int k, uint64_t n, const struct xseg *xs, int nxs,
 
 #define REALBLK 16u
 static void
-run_max(int k, enum ep ep, uint64_t n, int variant)
+run_max(int k, enum ep ep, uint64_t n, int variant, uint64_t first_answer)
 {
     unsigned char *blk[SEG_BLOCKS];
     struct seg g;
     memset(&g, 0, sizeof g);
     g.nblk = SEG_BLOCKS;
+    g.first_answer = first_answer;
     for (int b = 0; b < SEG_BLOCKS; ++b) {
         blk[b] = mc_exact(REALBLK);
         for (size_t i = 0; i < REALBLK; ++i)
@@ -838,8 +1228,12 @@ run_max(int k, enum ep ep, uint64_t n, int variant)
             rc = flenp_buffer_encode(klib[k], lpb, &b);
         else
             rc = flenp_buffer_encode_n(klib[k], lpb, &b, n);
-        if (judge_obj(name, k, n, blk[0] + off, lpb->prefix_, &lpb->prefix, &lpb->payload, rc) && isn)
-            check_advance(name, &b, blk[0], size, used, off, n);
+        if (judge_obj(name, k, n, blk[0] + off, lpb->prefix_, &lpb->prefix, &lpb->payload, rc)) {
+            if (isn)
+                check_advance(name, &b, blk[0], size, used, off, n);
+        } else if (isn && !mc.cur_failed) {
+            check_position(name, &b, blk[0], size, used, off, n);
+        }
         free(lpb);
         break;
     }
@@ -854,6 +1248,8 @@ run_max(int k, enum ep ep, uint64_t n, int variant)
         judge_seg(name, k, n, xs, 1, &g, rc);
         if (isn && rc >= 0 && ref_verdict(k, n, true) != V_REFUSE)
             check_advance(name, &b, blk[0], size, used, off, n);
+        else if (isn && !mc.cur_failed)
+            check_position(name, &b, blk[0], size, used, off, n);
         break;
     }
     case EP_CHUNKS_USE: case EP_CHUNKS_SINK: {
@@ -901,10 +1297,27 @@ enc_max(void)
                     if (!mc_case("enc-max k=%s ep=%s n=%llu%s", kname[k], epname[ep],
                                  (unsigned long long)N[i], ch ? (variant ? " with-empty-chunk" : " two-chunks") : ""))
                         continue;
-                    run_max(k, (enum ep)ep, N[i], variant);
+                    run_max(k, (enum ep)ep, N[i], variant, 0);
                     mc_end(true, verdict_outcome(ref_verdict(k, N[i], ep >= EP_MEM_SINK), 2));
                 }
             }
+    /* the same maxima into a sink whose first payload call takes only part of
+     * what it is given: a count whose low 32 bits read as a negative number, as
+     * -EAGAIN / -EINTR / -EIO, or as 0 */
+    static const uint64_t A[] = { 1, 1ull << 31, (1ull << 32) - EAGAIN, (1ull << 32) - EINTR, (1ull << 32) - EIO, 1ull << 32 };
+    for (int k = 0; k < NKINDS; ++k)
+        for (size_t i = 0; i < sizeof N / sizeof *N; ++i)
+            for (int ep = EP_MEM_SINK; ep < 8; ++ep)
+                for (size_t a = 0; a < sizeof A / sizeof *A; ++a) {
+                    /* chunk lists: the first payload chunk holds n-2 octets */
+                    if (ref_verdict(k, N[i], true) != V_ACCEPT || A[a] + 2 >= N[i])
+                        continue;
+                    if (!mc_case("enc-max k=%s ep=%s n=%llu first-sink-answer=%llu", kname[k], epname[ep],
+                                 (unsigned long long)N[i], (unsigned long long)A[a]))
+                        continue;
+                    run_max(k, (enum ep)ep, N[i], 0, A[a]);
+                    mc_end(true, "encmax-partial-sink");
+                }
 }
 /* ------------------------------------------------------------------------ */
 /* Decoders                                                                  */
@@ -1112,6 +1525,175 @@ dec_max(void)
         }
 }
 
+/* ---- accepting decodes at the 32-bit maxima and beyond -------------------- */
+
+/* The destination is an anonymous mapping that is never touched (no page of
+ * it comes into existence).  The source serves the prefix octets for real and
+ * identifies the payload octets of a read by the address it is asked to fill:
+ * the read that follows `moved` payload octets has to name destination +
+ * moved.  Its first payload read delivers `first` octets, the following ones
+ * everything asked. */
+#define ARENA_SIZE ((1ull << 33) + (1ull << 20))
+static unsigned char *ARENA;
+
+struct hsrc {
+    unsigned char pfx[10];
+    size_t npfx, ppos;
+    uint64_t len, moved, first;
+    bool first_done, bad, gave_up;
+    uintptr_t dst;
+    long calls, bad_call;
+    long long bad_off;
+    uint64_t bad_moved;
+};
+
+static ssize_t
+hsrc_chunk(void *drv, void *data, size_t n)
+{
+    struct hsrc *h = drv;
+    if (++h->calls > SEG_BUDGET) {
+        h->gave_up = true;
+        return -EIO;
+    }
+    if (h->ppos < h->npfx) {
+        size_t m = h->npfx - h->ppos;
+        if (m > n)
+            m = n;
+        memcpy(data, h->pfx + h->ppos, m);
+        h->ppos += m;
+        return (ssize_t)m;
+    }
+    if (h->moved >= h->len)
+        return -ENODATA;
+    if ((uintptr_t)data != h->dst + h->moved && !h->bad) {
+        h->bad = true;
+        h->bad_call = h->calls;
+        h->bad_off = (long long)(intptr_t)((uintptr_t)data - h->dst);
+        h->bad_moved = h->moved;
+    }
+    uint64_t t = h->len - h->moved;
+    if (t > n)
+        t = n;
+    if (!h->first_done) {
+        h->first_done = true;
+        if (t > h->first)
+            t = h->first;
+    }
+    h->moved += t;
+    mc_log("source call %ld: asked to fill %zu octets at offset %lld of the destination -> %llu", h->calls, n,
+           (long long)(intptr_t)((uintptr_t)data - h->dst), (unsigned long long)t);
+    return (ssize_t)t;
+}
+
+/* The family rests on the destination never being touched.  The decoders only
+ * pass its address to the source, but an implementation may do more with a
+ * destination it was given; so both decoders are first run once on a 64 MiB
+ * mapping and its pages are counted: if more than a handful came into
+ * existence, the cases are numbered but not run and the run is marked
+ * incomplete -- never a violation. */
+static bool
+dec_huge_probe(void)
+{
+    const uint64_t size = (uint64_t)64 << 20, len = size - 64u;
+    const uint64_t pagesz = (uint64_t)sysconf(_SC_PAGESIZE);
+    unsigned char *vec = malloc((size_t)(size / pagesz) + 1u);
+    bool ok = vec != NULL;
+    for (int d = 0; ok && d < 2; ++d) {
+        unsigned char *m = mmap(NULL, size, PROT_READ | PROT_WRITE, MAP_PRIVATE | MAP_ANONYMOUS | MAP_NORESERVE, -1, 0);
+        if (m == MAP_FAILED)
+            mc_broken("cannot set up the probe mapping");
+        struct hsrc h;
+        memset(&h, 0, sizeof h);
+        h.npfx = ref_prefix(K_VAR, len, h.pfx);
+        h.len = len;
+        h.first = len;
+        Source src;
+        chunk_source_init(&src, hsrc_chunk, &h);
+        if (d == D_MEM) {
+            h.dst = (uintptr_t)m;
+            (void)flenp_memory_from_source(klib[K_VAR], &src, m, (size_t)size);
+        } else {
+            ByteBuffer b = { m, (size_t)size, 3, 1 };
+            h.dst = (uintptr_t)m + 3u;
+            (void)flenp_buffer_from_source(klib[K_VAR], &src, &b);
+        }
+        size_t resident = 0;
+        if (mincore(m, size, vec) != 0)
+            mc_broken("mincore failed on the probe mapping");
+        for (uint64_t i = 0; i < size / pagesz; ++i)
+            resident += vec[i] & 1u;
+        munmap(m, size);
+        ok = resident <= 8;
+    }
+    free(vec);
+    if (!ok)
+        mc_cap("a decoder works on the destination beyond passing it to the source (dec-huge cases not run)");
+    return ok;
+}
+
+static void
+dec_huge(void)
+{
+    const bool runnable = dec_huge_probe();
+    static const int ks[3] = { K_VAR, K_LE32, K_BE32 };
+    static const uint64_t LS[] = { (1ull << 32) - 3, (1ull << 32) - 1, (1ull << 32) + 5, (1ull << 33) - EINTR + 1 };
+    static const uint64_t FIRST[] = { 1, 1ull << 31, (1ull << 32) - EAGAIN, (1ull << 32) - EINTR, (1ull << 32) - EIO,
+                                      1ull << 32, (1ull << 33) - EINTR };
+    for (int ki = 0; ki < 3; ++ki)
+        for (size_t li = 0; li < sizeof LS / sizeof *LS; ++li)
+            for (size_t fi = 0; fi < sizeof FIRST / sizeof *FIRST; ++fi)
+                for (int d = 0; d < 2; ++d)
+                    for (uint64_t slack = 0; slack < 2; ++slack) {
+                        const int k = ks[ki];
+                        const uint64_t len = LS[li];
+                        if (len > ref_max(k) || FIRST[fi] >= len)
+                            continue;
+                        if (!mc_case("dec-huge k=%s dec=%s len=%llu cap=%llu first-read=%llu%s", kname[k], decname[d],
+                                     (unsigned long long)len, (unsigned long long)(len + slack), (unsigned long long)FIRST[fi],
+                                     d == D_BUF ? " used=3 off=1" : ""))
+                            continue;
+                        if (!runnable) {
+                            mc_end(false, "dechuge-not-run");
+                            continue;
+                        }
+                        struct hsrc h;
+                        memset(&h, 0, sizeof h);
+                        h.npfx = ref_prefix(k, len, h.pfx);
+                        h.len = len;
+                        h.first = FIRST[fi];
+                        Source src;
+                        chunk_source_init(&src, hsrc_chunk, &h);
+                        ssize_t rc;
+                        bool state_ok = true;
+                        mc_trans(1);
+                        if (d == D_MEM) {
+                            h.dst = (uintptr_t)ARENA;
+                            rc = flenp_memory_from_source(klib[k], &src, ARENA, (size_t)(len + slack));
+                        } else {
+                            ByteBuffer b = { ARENA, (size_t)(3u + len + slack), 3, 1 };
+                            h.dst = (uintptr_t)ARENA + 3u;
+                            rc = flenp_buffer_from_source(klib[k], &src, &b);
+                            mc_log("buffer after: used=%zu offset=%zu", b.used, b.offset);
+                            state_ok = b.data == ARENA && b.size == 3u + len + slack && b.used == 3u + len && b.offset == 1;
+                        }
+                        mc_log("%s rc=%zd, %llu payload octets delivered in %ld source calls", decname[d], rc,
+                               (unsigned long long)h.moved, h.calls);
+                        if (h.bad)
+                            mc_fail(clause(decname[d], "returns-payload"), "source call %ld was asked to fill the destination at offset %lld after %llu payload octets had been delivered: the payload does not arrive in place",
+                                    h.bad_call, h.bad_off, (unsigned long long)h.bad_moved);
+                        else if (h.gave_up && h.moved <= len)
+                            /* every read so far delivered in place: an implementation that reads little at a time */
+                            mc_log("not judged: %ld source calls delivered a prefix of the payload only", h.calls);
+                        else if (rc < 0 || (uint64_t)rc != len || h.moved != len)
+                            mc_fail(clause(decname[d], "returns-payload"), "room for %llu, frame of %llu: rc=%zd, %llu payload octets taken from the source",
+                                    (unsigned long long)(len + slack), (unsigned long long)len, rc, (unsigned long long)h.moved);
+                        else if (!state_ok)
+                            mc_fail(clause(decname[d], "appends"), "buffer after a frame of %llu octets does not hold it behind the old fill mark",
+                                    (unsigned long long)len);
+                        mc_end(true, "dechuge-accept");
+                    }
+}
+
 /* ---- consecutive frames under fragmentation ------------------------------ */
 #define MAXFR 3
 struct shape {
@@ -1120,7 +1702,7 @@ struct shape {
 };
 
 static void
-run_stream(const struct shape *sh, enum dec d, const unsigned char *cut, enum srckind sk, const char *what)
+run_stream(const struct shape *sh, enum dec d, const unsigned char *cut, enum srckind sk, const char *what, size_t scratch)
 {
     unsigned char *stream = mc_exact(sh->total);
     size_t sl = 0, sum = 0;
@@ -1132,6 +1714,12 @@ run_stream(const struct shape *sh, enum dec d, const unsigned char *cut, enum sr
     src_init(&drv, stream, sl, cut);
     Source src;
     make_source(&src, &drv, sk);
+    if (scratch) {
+        drv.scratch = mc_exact(scratch);
+        memset(drv.scratch, 0xee, scratch);
+        drv.scratch_size = scratch;
+        src.ext.getbuffer = src_getbuffer;
+    }
     const char *name = decname[d];
     /* accumulating destinations for the buffer and the sink decoder */
     const size_t bused = 2, boff = 1;
@@ -1183,6 +1771,7 @@ run_stream(const struct shape *sh, enum dec d, const unsigned char *cut, enum sr
     free(r.buf);
     free(mem);
     free(stream);
+    free(drv.scratch);
 }
 
 static void
@@ -1258,8 +1847,36 @@ shape_all_fragmentations(const struct shape *sh)
             cuts_desc(cut, L, cs, sizeof cs);
             if (!mc_case("stream k=%s frames=[%s] dec=%s fragments=%s", kname[sh->k], ls, decname[d], cs))
                 continue;
-            run_stream(sh, (enum dec)d, cut, SRC_CHUNK, "stream-in-order");
+            run_stream(sh, (enum dec)d, cut, SRC_CHUNK, "stream-in-order", 0);
             mc_end(mask != 0 || sh->nf > 1, "stream-inorder");
+        }
+}
+
+/* the same streams from a chunk source that offers a scratch block (the
+ * getbuffer extension): the sink decoder then moves the payload through that
+ * block, however small, instead of octet by octet */
+static void
+shape_getbuffer(const struct shape *sh)
+{
+    static const size_t SCR[3] = { 1, 3, 8 };
+    const size_t L = sh->total;
+    for (int si = 0; si < 3; ++si)
+        for (uint32_t mask = 0; mask < (1u << (L - 1)); ++mask) {
+            if (!mc_would_run()) {
+                mc_skip_case();
+                continue;
+            }
+            unsigned char cut[32] = { 0 };
+            for (size_t i = 0; i + 1 < L; ++i)
+                cut[i] = (mask >> i) & 1u;
+            char ls[40], cs[80];
+            shape_desc(sh, ls, sizeof ls);
+            cuts_desc(cut, L, cs, sizeof cs);
+            if (!mc_case("stream-getbuffer k=%s frames=[%s] dec=%s scratch=%zu fragments=%s", kname[sh->k], ls, decname[D_SINK],
+                         SCR[si], cs))
+                continue;
+            run_stream(sh, D_SINK, cut, SRC_CHUNK, "stream-in-order", SCR[si]);
+            mc_end(true, "stream-getbuffer");
         }
 }
 
@@ -1277,7 +1894,7 @@ shape_octet(const struct shape *sh)
         shape_desc(sh, ls, sizeof ls);
         if (!mc_case("stream-octet-source k=%s frames=[%s] dec=%s", kname[sh->k], ls, decname[d]))
             continue;
-        run_stream(sh, (enum dec)d, NULL, SRC_OCTET, "octet-source-in-order");
+        run_stream(sh, (enum dec)d, NULL, SRC_OCTET, "octet-source-in-order", 0);
         mc_end(true, "stream-octet");
     }
 }
@@ -1314,7 +1931,7 @@ stream_two_cuts(void)
                         cut[i] = 1;
                     if (j != i)
                         cut[j] = 1;
-                    run_stream(&sh, (enum dec)d, cut, SRC_CHUNK, "stream-in-order");
+                    run_stream(&sh, (enum dec)d, cut, SRC_CHUNK, "stream-in-order", 0);
                     mc_end(i != L - 1, "stream2-inorder");
                 }
     }
@@ -1326,23 +1943,36 @@ main(int argc, char **argv)
     mc_init(argc, argv);
     anchors();
     const bool T = mc_thorough();
+    ARENA = mmap(NULL, ARENA_SIZE, PROT_READ | PROT_WRITE, MAP_PRIVATE | MAP_ANONYMOUS | MAP_NORESERVE, -1, 0);
+    if (ARENA == MAP_FAILED)
+        mc_broken("cannot reserve %llu octets of address space", (unsigned long long)ARENA_SIZE);
     enc_small(T ? 8 : 6);
-    enc_chunks(T ? 4 : 3, T ? 2 : 1);
+    enc_refuse_n(T ? 6 : 4);
+    enc_chunks(T ? 4 : 3, T ? 3 : 2);
+    enc_sinkbeh(T ? 5 : 3, T ? 6 : 4, T ? 8 : 6, T ? 3 : 2);
     enc_long();
     enc_max();
     dec_small(T ? 8 : 6);
     dec_long();
     dec_max();
+    dec_huge();
     streams(T ? 16 : 12);
+    for_shapes(T ? 13 : 10, shape_getbuffer);
     stream_two_cuts();
     streams_octet(T ? 16 : 12);
-    char bound[800];
+    char bound[1400];
     snprintf(bound, sizeof bound,
              "6 kinds; encoders: buffer states size<=%d x n<=rest, chunk lists <=%d chunks (rest 0..3, lead/slack 0..1, active<=%d), "
-             "lengths 1..1100 + 65534..65536, maxima 2^31,2^32,SSIZE_MAX +-1 via fake buffers; decoders: buffer states size<=%d, "
-             "lengths 1..1100 x cap len-1..len+1, maxima vs real capacities 1 and 7; streams of 1..3 frames with <=%d octets under all 2^(L-1) "
-             "fragmentations, 130-octet stream under all <=2-cut fragmentations, octet source",
-             T ? 8 : 6, T ? 4 : 3, T ? 2 : 1, T ? 8 : 6, T ? 16 : 12);
+             "lengths 1..1100 + 65534..65536, maxima 2^31,2^32,SSIZE_MAX +-1 via fake buffers (also into a sink whose first call takes "
+             "1, 2^31, 2^32-11, 2^32-4, 2^32-5 or 2^32 octets); _n requests beyond every maximum and beyond the content (256 .. SIZE_MAX, "
+             "each straddling 2^32, SSIZE_MAX, SIZE_MAX by the buffer size) on every buffer state size<=%d followed by a second slice; "
+             "sink encoders with lengths <=%d into chunk/octet sinks under every placement of <=%d answers from {1, asked-1, 0, EINTR, EAGAIN} "
+             "over the first %d/%d calls; decoders: buffer states size<=%d, "
+             "lengths 1..1100 x cap len-1..len+1, maxima vs real capacities 1 and 7, accepting decodes of 2^32-3 .. 2^33 octets with a first "
+             "read of 1, 2^31, 2^32-11, 2^32-4, 2^32-5, 2^32, 2^33-4 octets; streams of 1..3 frames with <=%d octets under all 2^(L-1) "
+             "fragmentations (streams <=%d octets also from a source offering a scratch block of 1, 3, 8 octets, sink decoder), "
+             "130-octet stream under all <=2-cut fragmentations, octet source",
+             T ? 8 : 6, T ? 4 : 3, T ? 3 : 2, T ? 6 : 4, T ? 5 : 3, T ? 3 : 2, T ? 6 : 4, T ? 8 : 6, T ? 8 : 6, T ? 16 : 12, T ? 13 : 10);
     mc_finish(true, bound);
     return 0;
 }
